@@ -66,6 +66,10 @@ def classify(binary, root, patch_args, rel, flags):
     info = {"abs": absf, "provided": rel, "content": content, "parses": True, "generated": False,
             "solo": {"exit": code, "stderr": err.decode("utf-8", "replace")}}
     errs = err.decode("utf-8", "replace")
+    if code == "timeout":
+        # a busy machine, or a hang: C08 looks for hangs with longer limits; here the file just cannot be classified
+        info["apply"] = ("unknown", "the solo run did not end within the time limit")
+        return info
     # the log line is the last line of stdout
     logs = list(LOG_RE.finditer(out))
     if not logs:
